@@ -40,7 +40,7 @@ use super::update::finish;
 
 const ORIGINS: [&str; 7] = [".", "example.", "sub.example.", "deep.sub.example.", "other.", "xample.", "ub.example."];
 const BASES: [&str; 9] = [".", "example.", "sub.example.", "deep.sub.example.", "other.", "xample.", "ub.example.", "nomatch.", "le."];
-const PREFIXES: [&str; 5] = ["", "www.", "a.b.", "sub.", "Www."];
+const PREFIXES: [&str; 7] = ["", "www.", "a.b.", "sub.", "Www.", "*.", "*.a."];
 const SOURCES: [[u8; 4]; 6] = [[10, 0, 0, 1], [10, 0, 0, 200], [10, 0, 1, 1], [10, 1, 0, 1], [192, 168, 7, 7], [172, 16, 0, 9]];
 const NETS: [&str; 8] = ["10.0.0.0/8", "10.0.0.0/16", "10.0.0.0/24", "10.0.0.1/32", "192.168.0.0/16", "0.0.0.0/0", "10.0.1.0/24", "172.16.0.0/12"];
 
@@ -103,6 +103,14 @@ struct ZoneCfg {
     mx_n: u8,
     #[serde(default)]
     pad: u8,
+    /// HTTPS and SVCB records at `svc.<origin>`, each with an ipv4hint of `hint_n` addresses, an
+    /// ipv6hint of hint_n/2 addresses and an alpn list; CAA / NAPTR / SRV records at `mix.<origin>`
+    #[serde(default)]
+    svc_n: u8,
+    #[serde(default)]
+    hint_n: u8,
+    #[serde(default)]
+    mix_n: u8,
 }
 
 #[derive(Serialize, Deserialize, Clone, Debug, PartialEq)]
@@ -354,6 +362,28 @@ fn build_server(p: &Plan) -> Server<Catalog> {
             h.upsert_mut(Record::from_rdata(sub("mx"), 300, RData::MX(hickory_proto::rr::rdata::MX::new(10 + k as u16, target.clone()))), 0);
             h.upsert_mut(Record::from_rdata(target, 300, RData::A(A(Ipv4Addr::new(10, 96, 0, k)))), 0);
         }
+        for k in 0..z.svc_n {
+            use hickory_proto::rr::rdata::svcb::{Alpn, IpHint, SvcParamKey, SvcParamValue, SVCB};
+            use hickory_proto::rr::rdata::{AAAA, HTTPS};
+            let v4: Vec<A> = (0..z.hint_n).map(|j| A(Ipv4Addr::new(10, 95, k, j))).collect();
+            let v6: Vec<AAAA> = (0..z.hint_n / 2).map(|j| AAAA(std::net::Ipv6Addr::new(0x2001, 0xdb8, 0, 0, 0, 0, k as u16, j as u16))).collect();
+            let mut params = vec![(SvcParamKey::Alpn, SvcParamValue::Alpn(Alpn(vec!["h2".into(), "h3".into()])))];
+            if !v4.is_empty() {
+                params.push((SvcParamKey::Ipv4Hint, SvcParamValue::Ipv4Hint(IpHint(v4))));
+            }
+            if !v6.is_empty() {
+                params.push((SvcParamKey::Ipv6Hint, SvcParamValue::Ipv6Hint(IpHint(v6))));
+            }
+            let svcb = SVCB::new(1 + k as u16, sub(&format!("t{k}{pad}.svc")), params);
+            h.upsert_mut(Record::from_rdata(sub("svc"), 300, RData::HTTPS(HTTPS(svcb.clone()))), 0);
+            h.upsert_mut(Record::from_rdata(sub("svc"), 300, RData::SVCB(svcb)), 0);
+        }
+        for k in 0..z.mix_n {
+            use hickory_proto::rr::rdata::{caa::KeyValue, CAA, NAPTR, SRV};
+            h.upsert_mut(Record::from_rdata(sub("mix"), 300, RData::CAA(CAA::new_issue(false, Some(sub(&format!("ca{k}{pad}"))), vec![KeyValue::new("account", format!("{k}{pad}"))]))), 0);
+            h.upsert_mut(Record::from_rdata(sub("mix"), 300, RData::NAPTR(NAPTR::new(100, k as u16, b"u".to_vec().into_boxed_slice(), b"E2U+sip".to_vec().into_boxed_slice(), format!("!^.*$!sip:info{k}{pad}@example.com!").into_bytes().into_boxed_slice(), sub(&format!("r{k}{pad}"))))), 0);
+            h.upsert_mut(Record::from_rdata(sub("mix"), 300, RData::SRV(SRV::new(k as u16, 5, 5060, sub(&format!("srv{k}{pad}"))))), 0);
+        }
         let real: Arc<dyn ZoneHandler> = Arc::new(h);
         let lower = LowerName::new(&origin);
         let chain: Vec<Arc<dyn ZoneHandler>> = if z.chain == 1 { vec![Arc::new(SkipHandler { origin: lower.clone() }), real] } else { vec![real] };
@@ -438,7 +468,7 @@ fn gen_front(seed: u64) -> Plan {
     let mut zones: Vec<ZoneCfg> = Vec::new();
     for o in 0..ORIGINS.len() {
         if r.chance(if o == 0 { 1 } else { 2 }, 5) {
-            zones.push(ZoneCfg { origin: o, chain: r.chance(1, 4) as u8, big_txt: 0, txt_len: 1, many_a: 0, deleg_ns: 0, mx_n: 0, pad: 0 });
+            zones.push(ZoneCfg { origin: o, chain: r.chance(1, 4) as u8, big_txt: 0, txt_len: 1, many_a: 0, deleg_ns: 0, mx_n: 0, pad: 0, svc_n: 0, hint_n: 0, mix_n: 0 });
         }
     }
     let (mut deny, mut allow) = (vec![], vec![]);
@@ -735,7 +765,15 @@ async fn front_scenario(mut p: Plan) {
                     })
                     .collect();
                 let want = if r.q.qtype == 1 { marker_ip(zi).to_string() } else { format!("zone{zi}") };
-                if markers.len() != 1 || markers[0] != want {
+                // a query name that itself starts with an asterisk label: whether the zone's wildcard
+                // is expanded for it is the lookup algorithm's business (C10); here the zone is then
+                // identified by the SOA of its negative answer (MNAME = zone<i>.<origin>)
+                let literal_wildcard_negative = markers.is_empty()
+                    && qname.to_ascii().starts_with('*')
+                    && m.authorities.iter().any(|rec| matches!(&rec.data, RData::SOA(soa) if soa.mname.to_ascii().starts_with(&format!("zone{zi}."))));
+                if literal_wildcard_negative {
+                    exec::count("probe.literal_wildcard_qname_negative_from_right_zone");
+                } else if markers.len() != 1 || markers[0] != want {
                     let shape = if markers.is_empty() { "no-answer" } else { "other-zone" };
                     if exec::violate("C11.wrong-zone", shape, format!("{what}: answered {markers:?} (rcode {rcode:?}), the longest enclosing zone is {} (marker {want}); zones {:?}", ORIGINS[p.zones[zi].origin], p.zones.iter().map(|z| (ORIGINS[z.origin], z.chain)).collect::<Vec<_>>())) {
                         return;
@@ -756,7 +794,10 @@ fn gen_sizes(seed: u64) -> Plan {
     let mut sim = SimConfig::from_seed(seed);
     sim.step_budget = 4_000_000;
     let origin = 1 + r.usize_below(3);
-    let zones = vec![ZoneCfg { origin, chain: 0, big_txt: *r.pick(&[0u16, 1, 2, 3, 5, 9, 20, 60, 300]), txt_len: *r.pick(&[1u8, 10, 40, 100, 200, 249]), many_a: if r.chance(1, 40) { 4200 } else if r.chance(1, 15) { 1000 } else { *r.pick(&[0u16, 1, 20, 28, 29, 30, 31, 32, 60, 200]) }, deleg_ns: *r.pick(&[0u8, 1, 2, 4, 6, 8, 13]), mx_n: *r.pick(&[0u8, 1, 3, 6, 12]), pad: r.below(50) as u8 }];
+    let zones = vec![ZoneCfg { origin, chain: 0, big_txt: *r.pick(&[0u16, 1, 2, 3, 5, 9, 20, 60, 300]), txt_len: *r.pick(&[1u8, 10, 40, 100, 200, 249]), many_a: if r.chance(1, 40) { 4200 } else if r.chance(1, 15) { 1000 } else { *r.pick(&[0u16, 1, 20, 28, 29, 30, 31, 32, 60, 200]) }, deleg_ns: *r.pick(&[0u8, 1, 2, 4, 6, 8, 13]), mx_n: *r.pick(&[0u8, 1, 3, 6, 12]), pad: r.below(50) as u8, svc_n: 0, hint_n: 0, mix_n: 0 }];
+    let mut zones = zones;
+    // (drawn after everything else of the zone so that earlier plans keep their shape)
+    let extra = (*r.pick(&[0u8, 1, 1, 2, 4, 9]), *r.pick(&[0u8, 1, 2, 7, 20, 60, 110, 250]), *r.pick(&[0u8, 0, 1, 3, 8, 30]));
     let base = BASES.iter().position(|b| *b == ORIGINS[origin]).unwrap_or(1);
     let nreq = 1 + r.usize_below(4);
     let mut reqs = Vec::new();
@@ -764,8 +805,10 @@ fn gen_sizes(seed: u64) -> Plan {
         let mut q = gen_q(&mut r, true);
         q.base = base;
         // "big." / "many." / wildcard names
-        q.prefix = 100 + r.usize_below(6);
+        q.prefix = 100 + r.usize_below(8);
         match q.prefix {
+            106 => q.qtype = *r.pick(&[65u16, 65, 64, 255]),
+            107 => q.qtype = *r.pick(&[255u16, 257, 35, 33]),
             103 => q.qtype = *r.pick(&[1u16, 16, 2]),
             104 => q.qtype = *r.pick(&[2u16, 2, 255, 1]),
             105 => q.qtype = *r.pick(&[15u16, 15, 255]),
@@ -773,6 +816,9 @@ fn gen_sizes(seed: u64) -> Plan {
         }
         reqs.push(Req { id: 0x2000 + i as u16, src: 0, tcp: false, q, kind: Kind::Valid, delay_us: 0 });
     }
+    zones[0].svc_n = extra.0;
+    zones[0].hint_n = extra.1;
+    zones[0].mix_n = extra.2;
     Plan { sim, zones, deny: vec![], allow: vec![], reqs }
 }
 
@@ -784,6 +830,8 @@ fn sizes_qname(q: &Q) -> String {
         103 => "x.deleg.",
         104 => "deleg.",
         105 => "mx.",
+        106 => "svc.",
+        107 => "mix.",
         _ => "other-name.",
     };
     format!("{p}{base}")
@@ -809,7 +857,7 @@ impl Part for SizesPart {
         let mut p: Plan = serde_json::from_value(plan.clone()).expect("plan");
         p.sim.trace = trace;
         let sig = plan_sig(&p) ^ mix(p.reqs.iter().map(|r| r.q.edns.as_ref().map(|e| e.payload as u64).unwrap_or(7)).fold(0, |a, b| mix(a ^ b)));
-        let nontrivial = p.zones.iter().any(|z| z.big_txt > 2 || z.many_a > 20 || z.deleg_ns > 3 || z.mx_n > 3);
+        let nontrivial = p.zones.iter().any(|z| z.big_txt > 2 || z.many_a > 20 || z.deleg_ns > 3 || z.mx_n > 3 || (z.svc_n > 0 && z.hint_n > 6) || z.mix_n > 2);
         let p2 = p.clone();
         let out = exec::run(&p.sim, async move { sizes_scenario(p2).await });
         finish(out, sig, nontrivial, "C03.stall")
@@ -871,7 +919,7 @@ async fn sizes_scenario(p: Plan) {
     for k in 0..p.reqs.len() {
         let r = &p.reqs[k];
         let (Some(u), Some(t)) = (results.get(&(2 * k)), results.get(&(2 * k + 1))) else { continue };
-        let what = format!("{} type {} edns {:?}; zone big_txt={} txt_len={} many_a={} deleg_ns={} mx_n={} pad={}", sizes_qname(&r.q), r.q.qtype, r.q.edns, p.zones[0].big_txt, p.zones[0].txt_len, p.zones[0].many_a, p.zones[0].deleg_ns, p.zones[0].mx_n, p.zones[0].pad);
+        let what = format!("{} type {} edns {:?}; zone big_txt={} txt_len={} many_a={} deleg_ns={} mx_n={} pad={} svc_n={} hint_n={} mix_n={}", sizes_qname(&r.q), r.q.qtype, r.q.edns, p.zones[0].big_txt, p.zones[0].txt_len, p.zones[0].many_a, p.zones[0].deleg_ns, p.zones[0].mx_n, p.zones[0].pad, p.zones[0].svc_n, p.zones[0].hint_n, p.zones[0].mix_n);
         if u.len() != 1 || t.len() != 1 {
             if exec::violate("C03.response-count", "", format!("{what}: {} UDP and {} TCP responses", u.len(), t.len())) {
                 return;
